@@ -106,7 +106,15 @@ func ruleC04(c *Ctx, r *Report) {
 				}
 				key, isConst := constString(cc.Args[1])
 				keyDesc := key
-				if !isConst {
+				var iterKeys []string
+				if !isConst && f == cmdFn {
+					// while passing over the command's members: Set(cmd, el.Key, ...) under tests of el.Key
+					iterKeys = p.keysAt(cc.Args[1], i.Block())
+					if len(iterKeys) > 0 {
+						keyDesc = strings.Join(iterKeys, "|")
+					}
+				}
+				if !isConst && len(iterKeys) == 0 {
 					keyDesc = "<" + describeArg(cc.Args[1]) + ">"
 				}
 				construct := fmt.Sprintf("%s:set(input,%s)", f.Name(), keyDesc)
@@ -142,6 +150,14 @@ func ruleC04(c *Ctx, r *Report) {
 				case f == cmdFn:
 					okRecv := peel(recv) == ssa.Value(cmdFn.Params[0])
 					_, isZone := zoneForms[key]
+					if len(iterKeys) > 0 {
+						isConst, isZone = true, true
+						for _, ik := range iterKeys {
+							if _, z := zoneForms[ik]; !z {
+								isZone = false
+							}
+						}
+					}
 					r.Check(isConst && isZone && okRecv, "C04-R1", construct, c.InstrPos(i),
 						"the command walker rewrites a query-bearing key of the command document",
 						fmt.Sprintf("the command walker writes %s (query-bearing keys are %v): a member outside the zones is altered", keyDesc, keysOfForms()))
@@ -195,9 +211,8 @@ func ruleC04(c *Ctx, r *Report) {
 		for _, call := range c.callersOf(wf) {
 			if call.Parent() == cmdFn {
 				// the explain wrapper: the command walker applies itself / the rewriter to cmd[explain]
-				rv, kv, ok := getKeyValueOf(call.Call.Args[0])
-				s, isC := constString(kv)
-				okEx := ok && peel(rv) == ssa.Value(cmdFn.Params[0]) && isC && s == "explain"
+				rv, ks, ok := p.memberKeys(cmdFn, call.Call.Args[0], call.Block())
+				okEx := ok && rv == ssa.Value(cmdFn.Params[0]) && len(ks) == 1 && ks[0] == "explain"
 				r.Check(okEx, "C04-R1", fmt.Sprintf("%s:applies(%s,cmd.explain)", cmdFn.Name(), wf.Name()), c.InstrPos(call),
 					wf.Name()+" is applied to the command wrapped in cmd.explain", wf.Name()+" is applied inside the command walker to something other than cmd.explain")
 				continue
